@@ -16,11 +16,11 @@ import (
 // IDCase is one case of sub-check (b): what a client exchange does with replies whose ID is, or is
 // not, the ID of the request.
 type IDCase struct {
-	Stream  bool     // stream transport (ErrId on mismatch) or datagram (skip until match / deadline)
-	ID      uint16   // ID of the request
-	Replies []IDRep  // what the peer sends back, in order (stream: only the first is read)
-	Chunks  []int    // stream: segmentation of the reply
-	Timeout int      // datagram: client timeout in ms (only matters when no matching reply comes)
+	Stream  bool    // stream transport (ErrId on mismatch) or datagram (skip until match / deadline)
+	ID      uint16  // ID of the request
+	Replies []IDRep // what the peer sends back, in order (stream: only the first is read)
+	Chunks  []int   // stream: segmentation of the reply
+	Timeout int     // datagram: client timeout in ms (only matters when no matching reply comes)
 }
 
 type IDRep struct {
